@@ -97,6 +97,37 @@ def run(ctx, props=PROPS, random_only=False, nrand=None):
                 ubad.append((u.name, l, o, f"C01:fillrandom-writeerr:{u.name}:{l.split(' ')[1]}"))
             else:                   # panics / crashes of FillRandom itself belong to C18
                 st["fillrandom_failures_left_to_C18"] = st.get("fillrandom_failures_left_to_C18", 0) + 1
+        # second sentence of the property: a value whose tuple length disagrees with its size field is a write error
+        lm = []
+        for l, o in zip(enc_lines, enc_out):
+            f = l.split(" ")
+            if not o.startswith("ok ") or f[4] != "0":
+                continue
+            x = u.ins[int(f[2])]
+            if x["kind"] != "struct":
+                continue
+            for fj in x["fields"]:
+                tj = u.ins[fj["type"]]
+                a = fj.get("natArgs") or []
+                if fj.get("mask") is None and tj["kind"] == "array" and tj.get("isTuple") and tj.get("dynamicSize") and a and a[0]["kind"] == "field":
+                    fi = x["fields"][a[0]["value"]]
+                    if fi.get("mask") is None:
+                        goname = "".join(p[:1].upper() + p[1:] for p in fi["name"].split("_"))
+                        lm.append(f"lenmis {f[3]} {goname} {rng.choice([1, 2, -1]) if True else 1} {o[3:]}")
+                        break
+        lm = lm[:200]
+        if lm:
+            lmo = run_lines_resilient(u.gen.exe, [], lm, timeout=300, mem_gb=4)
+            for l, o in zip(lm, lmo):
+                st["length_mismatch_ops"] = st.get("length_mismatch_ops", 0) + 1
+                if o == "writeerr":
+                    st["length_mismatch_write_errors"] = st.get("length_mismatch_write_errors", 0) + 1
+                elif o.startswith("ok "):
+                    ubad.append((u.name, l, o, f"C01:length-mismatch-encoded:{u.name}:{l.split(' ')[1]}"))
+                elif o.startswith(("panic", "crash")):
+                    ubad.append((u.name, l, o, f"C01:length-mismatch-crash:{u.name}:{l.split(' ')[1]}"))
+                else:
+                    st["length_mismatch_skipped"] = st.get("length_mismatch_skipped", 0) + 1
         lines = [x[0] for x in rw]
         rc1, mo, err1 = run_lines(ref, [str(u.ir_path)], lines)
         rc2, go, err2 = run_lines(u.gen.exe, [], lines, timeout=900)
